@@ -82,6 +82,7 @@ let () =
             | "poison" -> Some (Poison (ni (int_of_string a.(1)), Array.length a > 2 && a.(2) = "a"))
             | "cksf" -> Some (CksF (ni (int_of_string a.(1))))
             | "relf" -> Some (RelF (ni (int_of_string a.(1))))
+            | "flip" -> Some Flip
             | "relstop" ->
               Some (RelStop (ni (int_of_string a.(1)), (Array.length a > 3 && a.(3) = "d"), a.(2) = "p", None, Z0))
             | "crash" ->
@@ -113,7 +114,7 @@ let () =
                  | OCk (t, lg) -> Printf.sprintf "ck %s %s" (si t) (log_s lg)
                  | OCks (t, lg) -> Printf.sprintf "cks %s %s" (si t) (log_s lg)
                  | ORel lg -> "rel " ^ log_s lg
-                 | ODone rt -> if a.(0) = "poison" then "poison" else if rt then "done retry" else "done"
+                 | ODone rt -> if a.(0) = "flip" then "flip" else if a.(0) = "poison" then "poison" else if rt then "done retry" else "done"
                  | OCrash lg -> Printf.sprintf "crash %s live=%s store=%s" (log_s lg) (sessions_s proto s'.live)
                                   (sessions_s proto s'.store) in
                outs := txt :: !outs)) ops;
@@ -161,5 +162,29 @@ let () =
             | _, Some (_, true) -> "ok" | _, Some (_, false) -> "err" | _, None -> "pend") (List.rev !issues) in
         let j l = if l = [] then "-" else String.concat "," l in
         Printf.printf "store=%s log=%s infl=%s res=%s\n" (j sv) (j (List.rev !log)) (j inf) (j res)
+      with e -> print_endline ("modelerror " ^ Printexc.to_string e))
+    | "sq" :: ops ->
+      (* Store contract on the sqlite store; keys are single letters, values numbers *)
+      (try
+        let kn k = ni (Char.code k.[0]) in
+        let st = ref sq_init and res = ref [] in
+        List.iter (fun o ->
+          let op = match String.split_on_char ':' o with
+            | ["put"; k; v] -> Some (SPut (kn k, ni (int_of_string v)))
+            | ["putr"; k; v] -> Some (SPutR (kn k, ni (int_of_string v)))
+            | ["del"; k] -> Some (SDel (kn k)) | ["delr"; k] -> Some (SDelR (kn k))
+            | ["clear"] -> Some SClear | ["lock"] -> Some SLock | ["unlock"] -> Some SUnlock
+            | _ -> None in
+          match op with
+          | None -> ()
+          | Some op ->
+            let (s', r) = sq_step !st op in
+            st := s';
+            (match r with Some true -> res := "ok" :: !res | Some false -> res := "err" :: !res | None -> ())) ops;
+        let kv = List.sort compare (List.map (fun (k, v) -> (String.make 1 (Char.chr (int_of_n k)), int_of_n v))
+                                      (dedup_keys [] !st.sq_data)) in
+        let j l = if l = [] then "-" else String.concat "," l in
+        Printf.printf "res=%s store=%s count=%d\n" (j (List.rev !res))
+          (j (List.map (fun (k, v) -> Printf.sprintf "%s:%d" k v) kv)) (List.length kv)
       with e -> print_endline ("modelerror " ^ Printexc.to_string e))
     | _ -> print_endline "badline") cases
